@@ -57,13 +57,9 @@ Proof. destruct t, c; reflexivity. Qed.
 Lemma map_cast_store t l : map (cast t) (map (store t) l) = map (store t) l.
 Proof. rewrite map_map. apply map_ext. intros c. apply cast_store. Qed.
 
-(* what an accepted write leaves to be read: numpy converts to the attribute's dtype (strings cut to the fixed width);
-   the scalar of a sparse attribute is kept as the python object it is *)
-Definition written (at_ : attr) (isv : bool) (l : list comp) : list comp :=
-  match ast at_ with
-  | Sparse _ => if isv then map (store (aty at_)) l else map (cast (aty at_)) l
-  | Dense _ _ _ => map (store (aty at_)) l
-  end.
+(* what an accepted write leaves to be read, in both storages: the components converted to the attribute's dtype
+   (bool/int widened, an int in a float attribute becomes the nearest double, strings cut to the fixed width) *)
+Definition written (at_ : attr) (isv : bool) (l : list comp) : list comp := map (store (aty at_)) l.
 
 (* what an entry that was never written reads *)
 Definition unset_read (h : heap) (a : attr) : list comp :=
@@ -105,6 +101,7 @@ Lemma set_laws s a k v s' :
   exists at_ isv l,
     lookup a (attrs s) = Some at_ /\
     sparse_validate (aty at_) (asz at_) v = inr (isv, l) /\
+    existsb (overflows (aty at_)) l = false /\
     rd s' a k = Some (written at_ isv l) /\
     (forall b j, (b, j) <> (a, k) -> rd s' b j = rd s b j) /\
     sn s' = sn s.
@@ -121,10 +118,12 @@ Proof.
   - destruct (sparse_validate (aty at_) (asz at_) v) as [e|[isv l]] eqn:V; [discriminate|].
     exists isv, l. split; [reflexivity|]. split; [reflexivity|].
     pose proof V as V'. apply sparse_validate_inr in V'; [|exact A1]. destruct V' as [V0 [V1 [V2 V3]]].
+    unfold sparse_vec_uses_attr_dtype, sparse_scal_converted in E.
+    destruct (existsb (overflows (aty at_)) l) eqn:Ov; [destruct isv; discriminate|]. split; [reflexivity|].
     destruct isv; inversion E; subst s'; clear E.
     + split; [|split; [|reflexivity]].
       * unfold rd. simpl. rewrite lookup_put_same. unfold rd_attr. simpl. rewrite lookup_upsert, Z.eqb_refl.
-        simpl. rewrite nth_error_app_new. simpl. unfold written. rewrite St. f_equal. apply map_cast_store.
+        simpl. rewrite nth_error_app_new. simpl. unfold written. f_equal. apply map_cast_store.
       * intros b j N. unfold rd. simpl. rewrite lookup_put. destruct (b =? a) eqn:Eb.
         -- apply Z.eqb_eq in Eb. subst b. rewrite La. assert (j <> k) by congruence.
            transitivity (rd_attr (hp t ++ [mkcell (aty at_) (map (store (aty at_)) l)]) at_ j).
@@ -134,7 +133,8 @@ Proof.
         -- destruct (lookup b (attrs t)) as [bt|] eqn:Lb; [|reflexivity]. eapply rd_attr_app. eapply H1; eassumption.
     + split; [|split; [|reflexivity]].
       * unfold rd. simpl. rewrite lookup_put_same. unfold rd_attr. simpl. rewrite lookup_upsert, Z.eqb_refl.
-        simpl. unfold written. rewrite St. destruct l as [|c [|c' r]]; simpl length in V2; try (exfalso; lia). reflexivity.
+        simpl. unfold written. destruct l as [|c [|c' r]]; simpl length in V2; try (exfalso; lia). simpl.
+        now rewrite cast_store.
       * intros b j N. unfold rd. simpl. rewrite lookup_put. destruct (b =? a) eqn:Eb.
         -- apply Z.eqb_eq in Eb. subst b. rewrite La. assert (j <> k) by congruence.
            unfold rd_attr. simpl. rewrite St. rewrite lookup_upsert.
@@ -146,13 +146,14 @@ Proof.
     exists isv, l. split; [reflexivity|]. split; [exact V|].
     pose proof V as V'. apply sparse_validate_inr in V'; [|exact A1]. destruct V' as [V0 [V1 [V2 V3]]].
     destruct A3 as [B1 [B2 B3]].
+    destruct (existsb (overflows (aty at_)) l) eqn:Ov; [discriminate|]. split; [reflexivity|].
     assert (K0 : 0 <= k < ne).
     { destruct (Z_lt_dec k 0); [exfalso|]; [assert (dense_oob k ne = true) by (apply dense_bounds; lia); congruence|].
       destruct (Z_lt_dec k ne); [lia|]. exfalso. assert (dense_oob k ne = true) by (apply dense_bounds; lia). congruence. }
     inversion E; subst s'; clear E. split; [|split; [|reflexivity]].
     + unfold rd. simpl. rewrite lookup_put_same. unfold rd_attr. simpl. rewrite O.
       unfold znth_row. rewrite nth_upd_same by lia.
-      unfold dense_get_scalar, written. rewrite St. destruct isv.
+      unfold dense_get_scalar, written. destruct isv.
       * assert (asz at_ =? 1 = false) by lia. rewrite H. reflexivity.
       * assert (asz at_ = 1) by lia. rewrite H. simpl.
         destruct l as [|c [|c' r]]; simpl length in V2; try (exfalso; lia). reflexivity.
@@ -178,7 +179,7 @@ Lemma rd_sparse_set n h a m k sv :
 Proof.
   intros [A1 [A2 A3]] St L. unfold rd_attr. rewrite St, L. rewrite St in A3. destruct A3 as [_ A3].
   specialize (A3 _ _ L). destruct sv as [c|id]; simpl.
-  - eexists. split; [reflexivity|]. split; [reflexivity|]. unfold rowlen. rewrite A3. reflexivity.
+  - eexists. split; [reflexivity|]. split; [reflexivity|]. unfold rowlen. destruct A3 as [A3 _]. rewrite A3. reflexivity.
   - destruct A3 as [_ [c [Hc Hr]]]. rewrite Hc. eexists. split; [reflexivity|]. split; [reflexivity|].
     unfold rowlen in *. now rewrite map_length.
 Qed.
@@ -290,7 +291,8 @@ Proof.
     destruct (dense_oob k (sn s)) eqn:O.
     + simpl. split; [intros _; now apply dense_bounds|reflexivity].
     + split.
-      * destruct (dense_validate (aty at_) (asz at_) v) as [er|[isv l]] eqn:V; simpl; [|discriminate].
+      * destruct (dense_validate (aty at_) (asz at_) v) as [er|[isv l]] eqn:V; simpl;
+          [|destruct (existsb (overflows (aty at_)) l); simpl; discriminate].
         intros H. inversion H. exfalso. eapply validate_not_oob; eauto.
       * intros K. apply dense_bounds in K. congruence.
 Qed.
@@ -404,4 +406,101 @@ Proof.
       unfold znth_row. rewrite app_nth1 by lia. reflexivity.
     + intros j Hj _. erewrite rd_dense; [|exact Ok'|reflexivity|lia].
       unfold znth_row, dense_expand_rows. rewrite nth_app_repeat_new by lia. unfold unset_read. now rewrite St.
+Qed.
+
+(* ------------------------------------------------------------------ frame: what an operation can change *)
+(* the operations that may change what entry (a,k) reads: a write to that very entry, creation / registration /
+   deletion / clearing of attribute a, clearing the container, and (conservatively) every in-place update *)
+Definition touches (o : op) (a k : Z) : Prop :=
+  match o with
+  | SetItem a' k' _ => a' = a /\ k' = k
+  | Create a' _ _ _ _ | CreateSized a' _ _ _ _ | Register a' _ _ _ _ | Delete a' | ClearAttr a' => a' = a
+  | ClearAll | Mut _ _ _ | MutArr _ _ _ _ | Update _ _ _ _ => True
+  | _ => False
+  end.
+
+Lemma rd_put_other s l a at' b j : b <> a -> rd (with_attrs s (put a at' l)) b j = rd (with_attrs s l) b j.
+Proof. intros N. unfold rd. simpl. now rewrite lookup_put_other. Qed.
+
+Lemma frame_step s o a k :
+  inv s -> op_ok o -> ~ touches o a k -> 0 <= k < sn s -> rd (fst (step s o)) a k = rd s a k.
+Proof.
+  intros Hi Ho NT Hk. destruct (step s o) as [s' w] eqn:E. simpl.
+  destruct o; simpl in NT, Ho; try (exfalso; apply NT; exact I).
+  - (* Create *)
+    destruct w; try (unfold step in E; simpl in E; unfold do_create in E;
+      repeat (match type of E with context [match ?x with _ => _ end] => destruct x end); inversion E; subst; reflexivity).
+    destruct (create_laws _ _ _ _ _ _ _ Hi Ho E) as [x0 [_ [_ [_ [_ [_ [F _]]]]]]]. apply F. congruence.
+  - (* Delete *)
+    unfold step in E. simpl in E. inversion E; subst. unfold rd. simpl. rewrite lookup_del.
+    destruct (a =? a0) eqn:Q; [exfalso; apply NT; lia|reflexivity].
+  - unfold step in E. simpl in E. inversion E; subst. reflexivity.
+  - (* SetItem *)
+    destruct w; try (unfold step in E; simpl in E; unfold do_set in E;
+      repeat (match type of E with context [match ?x with _ => _ end] => destruct x end); inversion E; subst; reflexivity).
+    destruct (set_laws _ _ _ _ _ Hi E) as [x0 [i0 [l0 [_ [_ [_ [_ [F _]]]]]]]]. apply F. intros Q. apply NT. inversion Q. auto.
+  - destruct (get_laws _ _ _ _ _ Hi E) as [_ [F _]]. apply F.
+  - (* Append *)
+    unfold step in E. simpl in E. destruct (lookup a (attrs s)) as [at_|] eqn:La.
+    + assert (S' : s' = fst (grow (tick s) 1 (append_amount (tick s)))) by now rewrite E. subst s'.
+      destruct (grow_laws (tick s) 1 (append_amount (tick s)) a at_ Hi) as [_ [G _]]; [lia| |exact La|apply G; exact Hk].
+      unfold append_amount. destruct (corner (tick s)); reflexivity.
+    + unfold grow in E. inversion E; subst. unfold rd. simpl. rewrite lookup_map_vals.
+      change (attrs (tick s)) with (attrs s). now rewrite La.
+  - unfold step in E. simpl in E. destruct (lookup a (attrs s)) as [at_|] eqn:La.
+    + assert (S' : s' = fst (grow (tick s) m (iadd_list_amount (tick s) m))) by now rewrite E. subst s'.
+      destruct (grow_laws (tick s) m (iadd_list_amount (tick s) m) a at_ Hi) as [_ [G _]]; [lia| |exact La|apply G; exact Hk].
+      unfold iadd_list_amount. destruct (corner (tick s)); reflexivity.
+    + unfold grow in E. inversion E; subst. unfold rd. simpl. rewrite lookup_map_vals.
+      change (attrs (tick s)) with (attrs s). now rewrite La.
+  - unfold step in E. simpl in E. destruct (lookup a (attrs s)) as [at_|] eqn:La.
+    + assert (S' : s' = fst (grow (tick s) m (iadd_cont_amount (tick s) m m))) by now rewrite E. subst s'.
+      destruct (grow_laws (tick s) m (iadd_cont_amount (tick s) m m) a at_ Hi) as [_ [G _]]; [lia| |exact La|apply G; exact Hk].
+      unfold iadd_cont_amount. destruct (corner (tick s)); reflexivity.
+    + unfold grow in E. inversion E; subst. unfold rd. simpl. rewrite lookup_map_vals.
+      change (attrs (tick s)) with (attrs s). now rewrite La.
+  - unfold step in E. simpl in E. destruct (lookup a (attrs s)) as [at_|] eqn:La.
+    + assert (S' : s' = fst (grow (tick s) (sn (tick s)) (iadd_cont_amount (tick s) (sn (tick s)) (sn (tick s) + sn (tick s)))))
+        by (change (sn (tick s)) with (sn s); rewrite E; reflexivity).
+      subst s'.
+      destruct (grow_laws (tick s) (sn (tick s)) (iadd_cont_amount (tick s) (sn (tick s)) (sn (tick s) + sn (tick s))) a at_ Hi)
+        as [_ [G _]]; [destruct Hi; simpl; lia| |exact La|apply G; exact Hk].
+      unfold iadd_cont_amount. destruct (corner (tick s)); reflexivity.
+    + unfold grow in E. inversion E; subst. unfold rd. simpl. rewrite lookup_map_vals.
+      change (attrs (tick s)) with (attrs s). now rewrite La.
+  - unfold step in E. simpl in E. inversion E; subst. reflexivity.
+  - (* ClearAttr *)
+    destruct w; try (unfold step in E; simpl in E; unfold do_clear_attr in E;
+      repeat (match type of E with context [match ?x with _ => _ end] => destruct x end); inversion E; subst; reflexivity).
+    destruct (clear_laws _ _ _ Hi E) as [x0 [x1 [_ [_ [_ [_ [F _]]]]]]]. apply F. congruence.
+  - (* AsArray *)
+    unfold step in E. simpl in E. unfold do_as_array in E.
+    repeat (match type of E with context [match ?x with _ => _ end] => destruct x end); inversion E; subst; reflexivity.
+  - unfold step in E. simpl in E. destruct (lookup a0 (attrs s)); inversion E; subst; reflexivity.
+  - unfold step in E. simpl in E. destruct (lookup a0 (attrs s)) as [x|]; [destruct (ast x)|]; inversion E; subst; reflexivity.
+  - unfold step in E. simpl in E. inversion E; subst. reflexivity.
+  - unfold step in E. simpl in E. inversion E; subst. reflexivity.
+  - (* Contains *)
+    unfold step in E. simpl in E. unfold do_contains in E.
+    repeat (match type of E with context [match ?x with _ => _ end] => destruct x end); inversion E; subst; reflexivity.
+  - (* ExtendListBad *)
+    unfold step in E. simpl in E. change (corner (tick s)) with (corner s) in E. destruct (corner s) eqn:Cn.
+    + inversion E; subst. reflexivity.
+    + destruct (lookup a (attrs s)) as [at_|] eqn:La.
+      * assert (S' : s' = fst (grow (tick s) (m + 1) (iadd_list_amount (tick s) (m + 1)))) by now rewrite E. subst s'.
+        destruct (grow_laws (tick s) (m + 1) (iadd_list_amount (tick s) (m + 1)) a at_ Hi) as [_ [G _]]; [lia| |exact La|apply G; exact Hk].
+        unfold iadd_list_amount. change (corner (tick s)) with (corner s). rewrite Cn. reflexivity.
+      * unfold grow in E. inversion E; subst. unfold rd. simpl. rewrite lookup_map_vals.
+        change (attrs (tick s)) with (attrs s). now rewrite La.
+  - contradiction.
+  - (* Register *)
+    unfold step in E. simpl in E. unfold do_register in E.
+    destruct (match lookup a0 (attrs (tick s)) with Some _ => register_keeps_existing | None => false end); [inversion E; subst; reflexivity|].
+    destruct (negb _); [inversion E; subst; reflexivity|]. destruct (sn (tick s) =? 0); [inversion E; subst; reflexivity|].
+    destruct (mk_default (hp (tick s)) t k0 d) as [e|[h' df]] eqn:M; inversion E; subst; [reflexivity|].
+    unfold rd. simpl. rewrite lookup_put_other by (intros Q; apply NT; auto).
+    change (attrs (tick s)) with (attrs s). destruct (lookup a (attrs s)) as [bt|] eqn:Lb; [|reflexivity].
+    unfold mk_default in M. destruct d as [c|].
+    + destruct (kind_of c); [|discriminate]. destruct (default_type_bad _ _); inversion M; subst. reflexivity.
+    + destruct (k0 =? 1); inversion M; subst; [reflexivity|]. eapply rd_attr_app. destruct Hi as [_ [H1 _]]. eapply H1; eauto.
 Qed.
